@@ -63,6 +63,14 @@ class Ctx:
         self.broken: list[dict] = []  # proof obligations / correspondences that no longer check
         self.violations: list[dict] = []  # concrete failing inputs
         self.known_hits: list[str] = []
+        # stale replay files of an earlier run of this tier / seed would be mistaken for results of this one
+        rd = VERIF / "replays" / pid
+        if rd.exists():
+            for f in rd.glob(f"{tier}_{seed}_*.json"):
+                try:
+                    f.unlink()
+                except OSError:
+                    pass
         self.obligations = 0
         self.discharged = 0
         self.assumptions_seen: list[str] = []
